@@ -90,6 +90,69 @@ Theorem C13_le_shared_refuted :
 Proof. exact (conj mp_le_shared_wrong_label mp_le_shared_drops_buckets). Qed.
 Print Assumptions C13_le_shared_refuted.
 
+(* the instrumentation class (Histogram, model/LeLabels.v): bounds are GIVEN as anything float() takes (B with the
+   platform's float() : B -> double, classified); every exposed le is the rendering of the DOUBLE the bound denotes,
+   in the given order, +Inf last, with the running count *)
+Theorem C13_hist_le_of_the_double : forall (B : Type) (f : B -> fclass) src counts out,
+  hist_le_samples B f src counts = Ok out ->
+  exists bs, hist_bounds B f src = Ok bs
+    /\ (2 <= length bs)%nat
+    /\ (exists pre, bs = pre ++ [FPosInf] /\ (pre = map f src \/ pre ++ [FPosInf] = map f src))
+    /\ (length counts = length bs ->
+          map fst out = map go_string bs /\ map snd out = prefix_sums 0 counts).
+Proof. exact hist_le_of_the_double. Qed.
+Print Assumptions C13_hist_le_of_the_double.
+
+(* position for position: the i-th given bound is exposed (when a value is kept for it) with le = go_string (float b) *)
+Theorem C13_hist_le_nth : forall (B : Type) (f : B -> fclass) src counts out i b,
+  hist_le_samples B f src counts = Ok out -> nth_error src i = Some b ->
+  (forall le n, nth_error out i = Some (le, n) -> le = go_string (f b))
+  /\ ((i < length counts)%nat -> exists n, nth_error out i = Some (go_string (f b), n)).
+Proof. exact hist_le_nth_both. Qed.
+Print Assumptions C13_hist_le_nth.
+
+(* how a bound was given (type, spelling) does not survive float(): sources denoting the same doubles are exposed
+   identically, and one double has one label string at any position of any two histograms *)
+Theorem C13_hist_le_spelling_independent : forall (B1 B2 : Type) (f1 : B1 -> fclass) (f2 : B2 -> fclass) s1 s2 counts,
+  map f1 s1 = map f2 s2 -> hist_le_samples B1 f1 s1 counts = hist_le_samples B2 f2 s2 counts.
+Proof. exact hist_le_spelling_independent. Qed.
+Print Assumptions C13_hist_le_spelling_independent.
+
+Theorem C13_hist_le_one_number_one_label :
+  forall (B1 B2 : Type) (f1 : B1 -> fclass) (f2 : B2 -> fclass) s1 s2 c1 c2 o1 o2 i j b1 b2 le1 n1 le2 n2,
+  hist_le_samples B1 f1 s1 c1 = Ok o1 -> hist_le_samples B2 f2 s2 c2 = Ok o2 ->
+  nth_error s1 i = Some b1 -> nth_error s2 j = Some b2 -> f1 b1 = f2 b2 ->
+  nth_error o1 i = Some (le1, n1) -> nth_error o2 j = Some (le2, n2) -> le1 = le2.
+Proof. exact hist_le_same_number. Qed.
+Print Assumptions C13_hist_le_one_number_one_label.
+
+(* the two paths agree: what a process exposes itself is what the multiprocess collector renders for a label set
+   with those bounds and counts *)
+Theorem C13_hist_le_agrees_with_merge : forall (A B : Type) (f : B -> fclass) (l : A) src counts out bs,
+  hist_le_samples B f src counts = Ok out -> hist_bounds B f src = Ok bs ->
+  mp_le_samples true [(l, combine bs counts)] = [(l, out)].
+Proof. exact hist_le_agrees_with_merge. Qed.
+Print Assumptions C13_hist_le_agrees_with_merge.
+
+(* fewer than two buckets is the only refusal, and it is a ValueError *)
+Theorem C13_hist_le_only_value_error : forall (B : Type) (f : B -> fclass) src counts e,
+  hist_le_samples B f src counts = Err e -> e = ValueError /\ (length (with_inf (map f src)) < 2)%nat.
+Proof. exact hist_le_only_value_error. Qed.
+Print Assumptions C13_hist_le_only_value_error.
+
+(* the design that renders the labels once in _prepare_buckets and keeps a bound given as text verbatim is refuted:
+   two sources denoting the same doubles (0.5, 1e6, +Inf as "0.50", "1000000", "inf" / as numbers) get different
+   label strings, the textual one not the renderings of its doubles - while the code exposes both identically *)
+Theorem C13_hist_le_verbatim_refuted :
+  exists s1 s2 : list given,
+    with_inf (map given_float s1) = with_inf (map given_float s2)
+    /\ hist_les_verbatim s1 <> hist_les_verbatim s2
+    /\ hist_les_verbatim s1 <> map go_string (with_inf (map given_float s1))
+    /\ hist_les_verbatim s2 = map go_string (with_inf (map given_float s2))
+    /\ forall counts, hist_le_samples given given_float s1 counts = hist_le_samples given given_float s2 counts.
+Proof. exact hist_les_verbatim_wrong. Qed.
+Print Assumptions C13_hist_le_verbatim_refuted.
+
 (* non-vacuity: 12345678900.0 meets the hypotheses and renders as 1.23456789e+10 *)
 Example C13_example :
   fixed_repr 49 (s2l "2345678900") (s2l "0") /\
